@@ -1,0 +1,160 @@
+//go:build verif
+
+package mailbox
+
+import (
+	"context"
+	"crypto/sha256"
+	"net"
+	"time"
+
+	"github.com/btcsuite/btclog/v2"
+	"github.com/lightninglabs/lightning-node-connect/hashmailrpc"
+)
+
+// This file is only compiled with the build tag `verif`. It exports
+// package-internal state and constructors to the external verification
+// harness. It adds no behaviour to the package.
+
+// VMachineState is a snapshot of the noise machine's internal state.
+type VMachineState struct {
+	Version         byte
+	MinVersion      byte
+	MaxVersion      byte
+	SendNonce       uint64
+	RecvNonce       uint64
+	SendKeyFP       [32]byte
+	RecvKeyFP       [32]byte
+	HandshakeDigest [32]byte
+	ChainingKey     [32]byte
+	HasRemoteStatic bool
+	RemoteStatic    []byte
+	ReceivedPayload []byte
+	PendingHeader   int
+	PendingBody     int
+}
+
+func (b *Machine) VState() VMachineState {
+	s := VMachineState{
+		Version:         b.version,
+		MinVersion:      b.minVersion,
+		MaxVersion:      b.maxVersion,
+		SendNonce:       b.sendCipher.nonce,
+		RecvNonce:       b.recvCipher.nonce,
+		SendKeyFP:       sha256.Sum256(b.sendCipher.secretKey[:]),
+		RecvKeyFP:       sha256.Sum256(b.recvCipher.secretKey[:]),
+		HandshakeDigest: b.handshakeDigest,
+		ChainingKey:     b.chainingKey,
+		ReceivedPayload: b.receivedPayload,
+		PendingHeader:   len(b.nextHeaderSend),
+		PendingBody:     len(b.nextBodySend),
+	}
+	if b.remoteStatic != nil {
+		s.HasRemoteStatic = true
+		s.RemoteStatic = b.remoteStatic.SerializeCompressed()
+	}
+
+	return s
+}
+
+// VNewNoiseGrpcConn builds a NoiseGrpcConn around an already handshaken
+// machine and a given transport.
+func VNewNoiseGrpcConn(connData *ConnData, proxy ProxyConn,
+	machine *Machine) *NoiseGrpcConn {
+
+	return &NoiseGrpcConn{
+		ProxyConn: proxy,
+		connData:  connData,
+		noise:     machine,
+	}
+}
+
+// VNewNoiseConn builds a NoiseConn around an already handshaken machine.
+func VNewNoiseConn(conn net.Conn, machine *Machine) *NoiseConn {
+	return &NoiseConn{conn: conn, noise: machine}
+}
+
+// VControlConn is the exported twin of the controlConn interface.
+type VControlConn interface {
+	ReceiveControlMsg(ControlMsg) error
+	SendControlMsg(ControlMsg) error
+	SetRecvTimeout(timeout time.Duration)
+	SetSendTimeout(timeout time.Duration)
+}
+
+// VNewConnKit returns the net.Conn part (Read/Write) of a connKit on top of
+// the given control connection.
+func VNewConnKit(impl VControlConn) interface {
+	Read(b []byte) (int, error)
+	Write(b []byte) (int, error)
+} {
+	return &connKit{impl: impl}
+}
+
+func VStripJSONWrapper(wrapped string) (string, error) {
+	return stripJSONWrapper(wrapped)
+}
+
+// VWithHashMailClient makes a Client use the given hashmail client.
+func VWithHashMailClient(c hashmailrpc.HashMailClient) ClientOption {
+	return func(client *Client) {
+		client.grpcClient = c
+	}
+}
+
+// VNewServer builds a Server on top of the given hashmail client instead of
+// dialling one.
+func VNewServer(serverHost string, connData *ConnData,
+	client hashmailrpc.HashMailClient,
+	onNewStatus func(status ServerStatus), logger btclog.Logger) (*Server, error) {
+
+	sid, err := connData.SID()
+	if err != nil {
+		return nil, err
+	}
+
+	s := &Server{
+		serverHost:  serverHost,
+		client:      client,
+		connData:    connData,
+		sid:         sid,
+		onNewStatus: onNewStatus,
+		log:         logger,
+		quit:        make(chan struct{}),
+	}
+	if s.log == nil {
+		s.log = log.WithPrefix("(server)")
+	}
+	s.ctx, s.cancel = context.WithCancel(context.Background())
+
+	return s, nil
+}
+
+// VAddrs returns the stream ids a mailbox connection presents to the relay.
+func (c *ClientConn) VAddrs() (recv, send [64]byte) { return c.receiveSID, c.sendSID }
+func (c *ServerConn) VAddrs() (recv, send [64]byte) { return c.receiveSID, c.sendSID }
+
+// VPatternString renders a handshake pattern for comparison with the model.
+func VPatternString(p HandshakePattern) string {
+	out := p.Name + "|"
+	render := func(mps []MessagePattern) string {
+		s := ""
+		for _, mp := range mps {
+			if mp.Initiator {
+				s += "->"
+			} else {
+				s += "<-"
+			}
+			for i, t := range mp.Tokens {
+				if i > 0 {
+					s += ","
+				}
+				s += string(t)
+			}
+			s += ";"
+		}
+		return s
+	}
+
+	return out + render(p.PreMessages) + "|" + render(p.Pattern)
+}
